@@ -1251,7 +1251,7 @@ func pairingRace(m *meta, rng *rand.Rand, round int) {
 func catchUpStats(m *meta, rng *rand.Rand, round int) {
 	pol := pick(rng, []kioshun.EvictionPolicy{kioshun.SieveTinyLFU, kioshun.SieveTinyLFU, kioshun.LRU, kioshun.LFU})
 	ctx := fmt.Sprintf("catch-up stats round %d policy %v", round, pol)
-	c, err := kioshun.New[int, int](kioshun.Config{MaxSize: 4096, ShardCount: 1, EvictionPolicy: pol, StatsEnabled: true})
+	c, err := kioshun.New[int, int](kioshun.Config{MaxSize: 4096, ShardCount: 1, EvictionPolicy: pol, StatsEnabled: true, WriteBufferSize: 256})
 	must(err)
 	defer c.Close()
 	watch(ctx)
